@@ -32,6 +32,7 @@ fn run_child(harness: &str, cfg: Value) {
         "c05_forget" => Box::new(move || harness::queue::c05_forget(&cfg)),
         "c09" => Box::new(move || harness::queue::c09(&cfg)),
         "c06" => Box::new(move || harness::uow::c06(&cfg)),
+        "c10" => Box::new(move || harness::agg::c10(&cfg)),
         "c13" => Box::new(move || harness::uow::c13(&cfg)),
         other => {
             eprintln!("unknown harness {other}");
